@@ -122,6 +122,14 @@ func buildView(c c11Case, dir string) (fsutil.FS, string, error) {
 	if c.FollowEmpty {
 		opt.FollowPaths = []string{}
 	}
+	if c.Under == "maprewrite" {
+		// the same filter also normalises metadata: every entry it reports - directories reported late, as ancestors
+		// of a selected entry, included - carries the rewritten stat
+		opt.Map = func(_ string, st *types.Stat) fsutil.MapResult {
+			st.Uid, st.Gid, st.ModTime = 4242, 4243, 1_000_000_000_000_000_000
+			return fsutil.MapResultKeep
+		}
+	}
 	v, err := newFilterFSReusedOpt(base, opt)
 	return v, prefix, err
 }
